@@ -661,6 +661,12 @@ Fixpoint resolve (h : heap) (x : id) (p : path) : option id :=
               end
   end.
 
+(* Loop.add_measurements: windows are offset by the current body duration (reads body_duration: memoises) *)
+Definition add_measurements (x : id) (ms : list mw) : M unit :=
+  d <- fueled (fun fuel => body_duration fuel x) ;;
+  let ms' := if Qeq_bool d 0 then ms else map (fun m : mw => let '(nm, b, l) := m in (nm, Qred (b + d), l)) ms in
+  modn x (fun n => set_meas (Some (match meas n with Some l => l ++ ms' | None => ms' end)) n).
+
 Inductive op :=
 | ONop
 | OAppend (p : path) (t : tspec)                                  (* x.append_child(loop=<fresh t>) or with keyword arguments *)
@@ -684,8 +690,10 @@ Inductive op :=
 | OEqCopy (p : path) (k : nat)                                    (* c = x.copy_tree_structure(None); perturb c in way k; x == c *)
 (* round 4: calls the caller survives inside try/except *)
 | OSetRepCountQ (p : path) (q : Q)                                (* x.repetition_count = <float with exact value q> *)
-| OReject (p : path) (e : exn).                                   (* a call on x whose arguments are rejected (wrong type, both loop= and
+| OReject (p : path) (e : exn)                                    (* a call on x whose arguments are rejected (wrong type, both loop= and
                                                                      keywords, NaN count, ...): raises e, nothing else happens *)
+(* round 6: add_measurements is part of the history alphabet *)
+| OAddMeas (p : path) (ms : list mw).                              (* x.add_measurements(ms) *)
 
 (* the copy of OEqCopy is changed in exactly one respect (k = 0, 5: in none that == may see) *)
 Fixpoint first_leaf (fuel : nat) (h : heap) (x : id) : id :=
@@ -752,6 +760,7 @@ Definition step (s : state) (o : op) : state * outcome :=
   | OEqCopy p k => run_at s p (fun x => c <- copy_tree_structure x NPNone ;; perturb k c)
   | OSetRepCountQ p q => run_at s p (fun x => set_repetition_count_q x q)
   | OReject p e => run_at s p (fun _ => raise e)
+  | OAddMeas p ms => run_at s p (fun x => add_measurements x ms)
   end.
 
 Definition init_state (t : tspec) : state :=
@@ -770,13 +779,7 @@ Fixpoint nodes (fuel : nat) (h : heap) (x : id) : list id :=
   end.
 Definition in_tree (h : heap) (r y : id) : bool := existsb (Nat.eqb y) (nodes (S (S (length h))) h r).
 
-(* ---- round 3: further public editing operations ------------------------------------------------------------------------ *)
-(* Loop.add_measurements: windows are offset by the current body duration (reads body_duration: memoises) *)
-Definition add_measurements (x : id) (ms : list mw) : M unit :=
-  d <- fueled (fun fuel => body_duration fuel x) ;;
-  let ms' := if Qeq_bool d 0 then ms else map (fun m : mw => let '(nm, b, l) := m in (nm, Qred (b + d), l)) ms in
-  modn x (fun n => set_meas (Some (match meas n with Some l => l ++ ms' | None => ms' end)) n).
-
+(* ---- round 3: further public editing operations (add_measurements: defined before the operation alphabet, round 6) ------ *)
 (* Node.depth / Node.is_balanced *)
 Fixpoint ndepth (fuel : nat) (h : heap) (x : id) : Z :=
   match fuel with
